@@ -186,6 +186,12 @@ func Program(t *rapid.T, cfg AsmConfig) rc.Program {
 		}
 		sh.labels = append(sh.labels, ls)
 	}
+	// a label on the END line denotes the instruction count (it may be used by any operand)
+	endLabel := ""
+	if rapid.IntRange(0, 5).Draw(t, "endlabel") == 0 {
+		endLabel = "Lend"
+		sh.labelAt[endLabel] = sh.n
+	}
 	// EQUs: E_k may reference E_j for j<k only (no cycles); placement is shuffled later
 	ne := rapid.IntRange(0, 4).Draw(t, "nequ")
 	var equItems []rc.Item
@@ -300,7 +306,9 @@ func Program(t *rapid.T, cfg AsmConfig) rc.Program {
 		}
 		items = append(items[:pos], append([]rc.Item{{Kind: rc.KOrg, Expr: e}}, items[pos:]...)...)
 	}
-	if rapid.Bool().Draw(t, "hasend") {
+	if endLabel != "" {
+		items = append(items, rc.Item{Kind: rc.KEnd, Labels: []string{endLabel}})
+	} else if rapid.Bool().Draw(t, "hasend") {
 		items = append(items, rc.Item{Kind: rc.KEnd})
 	}
 	return rc.Program{Items: items}
